@@ -150,6 +150,33 @@ class CmpSwapper(ast.NodeTransformer):
         return node
 
 
+class Elsifier(ast.NodeTransformer):
+    """`if c: A; return` followed by `B`  ->  `if c: A; return  else: B` (the rest of the block moves into an else-arm whenever the
+    if-arm always leaves the block)."""
+    TERM = (ast.Return, ast.Raise, ast.Continue, ast.Break)
+
+    def _block(self, stmts):
+        out = []
+        for i, st in enumerate(stmts):
+            if isinstance(st, ast.If) and not st.orelse and st.body and isinstance(st.body[-1], self.TERM) and i + 1 < len(stmts):
+                st.orelse = self._block(stmts[i + 1:])
+                out.append(st)
+                return out
+            out.append(st)
+        return out
+
+    def generic_visit(self, node):
+        super().generic_visit(node)
+        for field in ('body', 'orelse', 'finalbody'):
+            v = getattr(node, field, None)
+            if isinstance(v, list) and v and isinstance(v[0], ast.stmt) and not isinstance(node, ast.If if field == 'orelse' and False else ()):
+                setattr(node, field, self._block(v))
+        if isinstance(node, ast.Try):
+            for h in node.handlers:
+                h.body = self._block(h.body)
+        return node
+
+
 def rewrite(d, mode):
     for f in sorted(os.listdir(os.path.join(d, 'disk_objectstore'))):
         if not f.endswith('.py'):
@@ -164,6 +191,9 @@ def rewrite(d, mode):
             ast.fix_missing_locations(tree)
         elif mode == 'cmpswap':
             tree = CmpSwapper().visit(tree)
+            ast.fix_missing_locations(tree)
+        elif mode == 'elsify':
+            tree = Elsifier().visit(tree)
             ast.fix_missing_locations(tree)
         elif mode == 'flip':
             tree = Flipper().visit(tree)
